@@ -7,6 +7,7 @@
  */
 
 #include <algorithm>
+#include <vector>
 
 #include "cdns_decoder.h"
 
@@ -189,78 +190,96 @@ void CDNS::CdnsDecoder::read_break()
 
 void CDNS::CdnsDecoder::skip_item()
 {
-    CborType cbor_type;
-    uint8_t item_length;
-    read_cbor_type(cbor_type, item_length);
+    // Data items that still have to be skipped on every open nesting level. Nested items are
+    // tracked on this heap-allocated stack instead of by recursion, so the nesting depth of the
+    // input can't exhaust the call stack.
+    struct Level {
+        uint64_t items_left;
+        bool indef;
+    };
+    std::vector<Level> pending;
+    pending.push_back({1, false});
 
-    switch (cbor_type) {
-        case CborType::UNSIGNED:
-        case CborType::NEGATIVE:
-            if (item_length >= 28) {
-                throw CdnsDecoderException(("Unsupported CBOR additional information value: " +
-                                            std::to_string(item_length)).c_str());
+    while (!pending.empty()) {
+        if (pending.back().indef) {
+            if (peek_type() == CborType::BREAK) {
+                read_break();
+                pending.pop_back();
+                continue;
             }
-            read_int(item_length);
-            break;
+        }
+        else if (pending.back().items_left == 0) {
+            pending.pop_back();
+            continue;
+        }
+        else {
+            pending.back().items_left--;
+        }
 
-        case CborType::TAG:
-            if (item_length >= 28) {
-                throw CdnsDecoderException(("Unsupported CBOR additional information value: " +
-                                            std::to_string(item_length)).c_str());
-            }
-            read_int(item_length);
-            // A tag is a single data item together with its content
-            skip_item();
-            break;
+        CborType cbor_type;
+        uint8_t item_length;
+        read_cbor_type(cbor_type, item_length);
 
-        case CborType::SIMPLE:
-            if (item_length >= 28 && item_length <= 30) {
-                throw CdnsDecoderException(("Unsupported CBOR additional information value: " +
-                                            std::to_string(item_length)).c_str());
-            }
-            read_int(item_length);
-            break;
-
-        case CborType::BYTE_STRING:
-        case CborType::TEXT_STRING:
-            if (item_length >= 28 && item_length <= 30) {
-                throw CdnsDecoderException(("Unsupported CBOR additional information value: " +
-                                            std::to_string(item_length)).c_str());
-            }
-            read_string(cbor_type, read_int(item_length), item_length == 31 ? true : false);
-            break;
-
-        case CborType::ARRAY:
-        case CborType::MAP:
-            if (item_length >= 28 && item_length <= 30) {
-                throw CdnsDecoderException(("Unsupported CBOR additional information value: " +
-                                            std::to_string(item_length)).c_str());
-            }
-            if (item_length == 31) {
-                while(true) {
-                    if (peek_type() == CborType::BREAK) {
-                        m_p++;
-                        break;
-                    }
-                    skip_item();
-                    if (cbor_type == CborType::MAP)
-                        skip_item();
+        switch (cbor_type) {
+            case CborType::UNSIGNED:
+            case CborType::NEGATIVE:
+                if (item_length >= 28) {
+                    throw CdnsDecoderException(("Unsupported CBOR additional information value: " +
+                                                std::to_string(item_length)).c_str());
                 }
-            }
-            else {
-                uint64_t item_count = read_int(item_length);
-                for (unsigned i = 0; i < item_count; i++) {
-                    skip_item();
-                    if (cbor_type == CborType::MAP)
-                        skip_item();
-                }
-            }
-            break;
+                read_int(item_length);
+                break;
 
-        default:
-            throw CdnsDecoderException(("Unknown CBOR major type " +
-                                        std::to_string(static_cast<uint8_t>(cbor_type) >> 5)).c_str());
-            break;
+            case CborType::TAG:
+                if (item_length >= 28) {
+                    throw CdnsDecoderException(("Unsupported CBOR additional information value: " +
+                                                std::to_string(item_length)).c_str());
+                }
+                read_int(item_length);
+                // A tag is a single data item together with its content
+                pending.push_back({1, false});
+                break;
+
+            case CborType::SIMPLE:
+                if (item_length >= 28 && item_length <= 30) {
+                    throw CdnsDecoderException(("Unsupported CBOR additional information value: " +
+                                                std::to_string(item_length)).c_str());
+                }
+                read_int(item_length);
+                break;
+
+            case CborType::BYTE_STRING:
+            case CborType::TEXT_STRING:
+                if (item_length >= 28 && item_length <= 30) {
+                    throw CdnsDecoderException(("Unsupported CBOR additional information value: " +
+                                                std::to_string(item_length)).c_str());
+                }
+                read_string(cbor_type, read_int(item_length), item_length == 31 ? true : false);
+                break;
+
+            case CborType::ARRAY:
+            case CborType::MAP:
+                if (item_length >= 28 && item_length <= 30) {
+                    throw CdnsDecoderException(("Unsupported CBOR additional information value: " +
+                                                std::to_string(item_length)).c_str());
+                }
+                if (item_length == 31) {
+                    pending.push_back({0, true});
+                }
+                else {
+                    uint64_t item_count = read_int(item_length);
+                    pending.push_back({item_count, false});
+                    // A map holds a key and a value for every counted entry
+                    if (cbor_type == CborType::MAP)
+                        pending.push_back({item_count, false});
+                }
+                break;
+
+            default:
+                throw CdnsDecoderException(("Unknown CBOR major type " +
+                                            std::to_string(static_cast<uint8_t>(cbor_type) >> 5)).c_str());
+                break;
+        }
     }
 }
 
